@@ -158,6 +158,30 @@ def run(ctx):
                                   f"the one-shot reading delivers {len(ref['data']) // 2}")
                     break
     ctx.count("suite:concurrent-consumer", nc)
+    # a bounded message queue whose consumer keeps up (the server's configuration: max_msg_queue_size = 32): the parser
+    # parks the rest of a read when the queue is full and resumes with feed_data(b"") - the requests and the outcome must
+    # not depend on where the reads were cut, in particular not on what an earlier read left in the parser
+    nq = 0
+    for i in range(12 if ctx.quick else 150):
+        nreq = rng.choice([3, 4, 6])
+        s = b""
+        for k in range(nreq):
+            pad = rng.choice([0, 0, 30, 120, 400])
+            s += (b"GET /q/%d HTTP/1.1\r\nHost: x\r\n" % k) + (b"Cookie: " + b"c" * pad + b"\r\n" if pad else b"") + b"\r\n"
+        lim = (8190, 8190, 128, rng.choice([1, 2, 2, 3]))
+        one = H.impl_run_drained([s], lim)
+        cuts = all_single_cuts(s) if len(s) < 700 else [[s[:c], s[c:]] for c in sorted(rng.sample(range(1, len(s)), 300))]
+        cuts += [[s[:a], s[a:b], s[b:]] for a, b in (sorted(rng.sample(range(1, len(s)), 2)) for _ in range(40))]
+        for segs1 in cuts:
+            got = H.impl_run_drained(segs1, lim)
+            nq += 1
+            ctx.case((s, lim, tuple(len(x) for x in segs1), "drained"), nontrivial=True)
+            if got != one:
+                ctx.violation({"parser": "request", "kind": "queue-drain", "stream": s.hex(), "lim": list(lim), "segs": [x.hex() for x in segs1]},
+                              f"request parser with a draining message queue of {lim[3]}: one read gives {one['outcome']} with "
+                              f"{len(one['msgs'])} requests, this segmentation gives {got['outcome']} with {len(got['msgs'])}")
+                break
+    ctx.count("suite:queue-drain", nq)
     # responses: implementation self-consistency only
     nr = 200 if ctx.quick else 3000
     ranr = 0
@@ -426,6 +450,10 @@ def replay(ctx, case):
         im = R.impl_run(segs, lim, True, True, True)
         why = R.strict_reading_violation(case["expected"], im)
         return {"observed": im, "why": why, "violates": why is not None}
+    if case.get("kind") == "queue-drain":
+        one, got = H.impl_run_drained([s], lim), H.impl_run_drained(segs, lim)
+        return {"one_shot": one["outcome"], "n_one_shot": len(one["msgs"]), "split": got["outcome"], "n_split": len(got["msgs"]),
+                "violates": one != got}
     if case.get("kind") == "concurrent-consumer":
         one, got = H.impl_run([s], lim), H.impl_run_consumed(segs, lim)
         bad = any(g["finished"] and r["eof"] and r["exc"] is None and g["data"] != r["data"] for r, g in zip(one["msgs"], got["msgs"]))
